@@ -251,7 +251,7 @@ def format_case(draw):
     npoly = draw(st.integers(1, 5))
     polys = [draw(polygon(min_caps=1, max_caps=1 if layout == 'one-cap' else 6)) for _ in range(npoly)]
     pts = draw(points_for(polys, nrand=8))
-    return dict(layout=layout, polys=polys, points=pts, mode=draw(st.sampled_from(['xyz', 'radec'])),
+    return dict(layout=layout, polys=polys, points=pts, mode=draw(st.sampled_from(['xyz', 'radec'])), no_ifield=draw(st.sampled_from([False, True])),
                 captable=dict(order=list(draw(st.permutations(list(range(npoly))))), gaps=[draw(st.sampled_from([0, 0, 1, 3])) for _ in range(npoly)]),
                 ply_ids=draw(st.sampled_from([None, None, [2, 0, 1, 4, 3], [1207, 1207, 3045, 7, 7], [5, 4, 3, 2, 1]])))
 
@@ -268,7 +268,7 @@ def write_ply(fn, polys, ids=None):
         f.write('\n'.join(lines) + '\n')
 
 
-def write_fits(fn, polys, layout, hibits=False):
+def write_fits(fn, polys, layout, hibits=False, ifield=True):
     from astropy.io import fits
     n = len(polys)
     if layout == 'one-cap':
@@ -295,6 +295,8 @@ def write_fits(fn, polys, layout, hibits=False):
             # hibits: a writer that also sets the use-mask bits of the unused (padding) cap slots of a row, up to 31
             fits.Column(name='USE_CAPS', format='J', bzero=2 ** 31,
                         array=np.array([(p['use_caps'] | (((1 << 31) - 1) & ~((1 << len(p['cm'])) - 1))) if hibits else p['use_caps'] for p in polys], dtype='u4'))]
+    if not ifield:
+        cols = [c for c in cols if c.name != 'IFIELD']        # the column is optional (tables written by older code have none)
     fits.BinTableHDU.from_columns(cols).writeto(fn, overwrite=True)
 
 
@@ -344,7 +346,7 @@ def format_body(case):
 
     with tmpdir() as d:
         fn = os.path.join(d, 'poly.fits')
-        write_fits(fn, polys, case['layout'])
+        write_fits(fn, polys, case['layout'], ifield=not case.get('no_ifield', False))
         raw = call(read_fits_polygons, fn)
         conv = call(read_fits_polygons, fn, convert=True)
         with judge('fits-read'):
@@ -493,6 +495,42 @@ def large_cases(tier):
             yield dict(n=n, mode=mode, probe=[0, 1, 32766, 32767, 32768, 32769, n - 1])
 
 
+def manypoint_cases(tier):
+    for npts in (((1 << 20) + 5,) if tier == 'quick' else ((1 << 20) + 5, (1 << 21) + 3, 3 * (1 << 20) - 1)):
+        for mode in ('xyz', 'radec'):
+            yield dict(npoints=npts, mode=mode)
+
+
+def manypoint_body(case):
+    """one call with more than a million points (a photometric catalogue against a window): 1009 base positions repeated in a fixed
+    order; every copy must get the answer of its base position"""
+    from pydl.pydlutils.mangle import is_in_window, PolygonList
+    polys = [dict(x=[[0.0, 0.0, 1.0], [1.0, 0.0, 0.0]], cm=[0.5, 1.2], use_caps=3), dict(x=[[0.0, 0.6, 0.8]], cm=[0.3], use_caps=1),
+             dict(x=[[0.0, 0.0, 1.0], [0.0, 1.0, 0.0]], cm=[-0.1, 1.0], use_caps=3)]
+    nb = 1009
+    i = np.arange(nb) + 0.5
+    z = 1 - 2 * i / nb
+    phi = i * 2.399963229728653
+    base = np.stack([np.sqrt(1 - z * z) * np.cos(phi), np.sqrt(1 - z * z) * np.sin(phi), z], 1)
+    want = window_verdict(polys, base)
+    N = case['npoints']
+    idx = (np.arange(N) * 7) % nb
+    P = base[idx]
+    arg = to_radec(P) if case['mode'] == 'radec' else P
+    objs = PolygonList([make_polygon(p) for p in polys])
+    inside, which = call(is_in_window, objs, arg)
+    with judge('many-points'):
+        which = np.asarray(which)
+        inside = np.asarray(inside)
+        check(which.shape == (N,) and inside.shape == (N,), 'is_in_window:many-points-malformed', lambda: dict(shape=which.shape))
+        dec = np.array([(sorted(w)[0] if len(w) == 1 else -2) for w in want])
+        exp = dec[idx]
+        bad = np.nonzero((exp != -2) & (which != exp))[0]
+        check(len(bad) == 0, 'is_in_window:many-points-wrong-polygon', lambda: dict(n_wrong=int(len(bad)), first=int(bad[0]), last=int(bad[-1]), got=int(which[bad[0]]), want=int(exp[bad[0]])))
+        check(bool(np.array_equal(inside, which >= 0)), 'is_in_window:many-points-flag-inconsistent')
+    note_label('points>2^20')
+
+
 def large_body(case):
     from pydl.pydlutils.mangle import is_in_window, PolygonList, ManglePolygon
     n = case['n']
@@ -514,6 +552,8 @@ SUBCHECKS = [
              doc='is_in_cap / is_in_polygon (ncaps restriction) / is_in_window on in-memory polygons vs the cap inequality'),
     SubCheck('large_window', large_body, kind='exhaustive', cases=large_cases, classify=lambda c: ['n:%d' % c['n'], c['mode']], nontrivial=lambda c, l: True,
              shards=(2, 4), floor=0.0, doc='first-containing-polygon index in a window of 33000 (thorough: 70000) polygons, beyond 16-bit indices'),
+    SubCheck('many_points', manypoint_body, kind='exhaustive', cases=manypoint_cases, classify=lambda c: ['n:%d' % c['npoints'], c['mode']], nontrivial=lambda c, l: True,
+             shards=(2, 6), floor=0.0, doc='one is_in_window call with more than 2^20 points (thorough: up to 3 x 2^20 - 1): every copy of a base position gets its answer'),
     SubCheck('storage_formats', format_body, strategy=format_case, classify=format_classify,
              quick=240, thorough=8000, shards=(8, 16),
              doc='.ply, FITS (multi-cap and one-cap layout; raw and converted) and window_read balkans give the oracle answers'),
